@@ -3,6 +3,7 @@
    Part B: a potential function on pending waiters: every handle completes at most once.
    Part C: origin of table entries in the event history: routing (trace form). *)
 From JV Require Import Base.Bytes Base.Dec Base.Utf8 Json.Json Model.Wire Model.ClientMgr Proofs.DecFacts Proofs.ClientMgrInv.
+From JV Require Import Proofs.ClientDispatchFacts.
 From Coq Require Import Permutation.
 Local Open Scope N_scope.
 Arguments N.add : simpl never.
@@ -52,8 +53,8 @@ Lemma handle_back_outs s fr o : In o (rres_out (handle_back s fr)) ->
   | _ => False
   end.
 Proof.
-  destruct fr as [x|ms|]; cbn [handle_back rres_out]; [| |contradiction].
-  - destruct x as [r|me sid p|me sid p|me p|]; cbn [handle_elem_single rres_out]; try contradiction.
+  destruct fr as [x|ms|]; rewrite ?handle_back_now; cbn [handle_back_ref rres_out]; [| |contradiction].
+  - destruct x as [r|me sid p|me sid p|me p|]; cbn [handle_elem_single_ref rres_out]; try contradiction.
     intros H. apply single_response_outs in H. destruct o as [|h c|]; auto.
     destruct c as [r'| | | | |e]; try (destruct H as (H1 & u & um & H2); first [exfalso; exact H1 | split; eauto]; fail).
     destruct H as (-> & H). auto.
@@ -191,7 +192,7 @@ Theorem unknown_id_completes_nothing s raw r :
 Proof.
   intros CF DY D L.
   assert (A : apply s (Back raw) = (upd_dying s FNotPending, [], None)).
-  { unfold apply. rewrite D, DY, CF. cbn [handle_back handle_elem_single]. unfold single_response.
+  { unfold apply. rewrite D, DY, CF. rewrite ?handle_back_now; cbn [handle_back_ref handle_elem_single_ref]. unfold single_response.
     destruct L as [-> | (u & ch & um & ->)]; reflexivity. }
   unfold step. rewrite A. pose proof (settle_outs (upd_dying s FNotPending)) as S.
   pose proof (settle_doomed (upd_dying s FNotPending)) as Dm.
@@ -524,8 +525,8 @@ Proof. unfold Pay. lia. Qed.
 
 Lemma Pay_back h s fr : Pay h 0 s (rres_out (handle_back s fr)) (rres_st (handle_back s fr)).
 Proof.
-  destruct fr as [x|ms|]; cbn [handle_back]; [| |apply Pay_same; reflexivity].
-  - destruct x as [r|me sid p|me sid p|me p|]; cbn [handle_elem_single rres_out rres_st]; try (apply Pay_same; reflexivity).
+  destruct fr as [x|ms|]; rewrite ?handle_back_now; cbn [handle_back_ref]; [| |apply Pay_same; reflexivity].
+  - destruct x as [r|me sid p|me sid p|me p|]; cbn [handle_elem_single_ref rres_out rres_st]; try (apply Pay_same; reflexivity).
     + apply Pay_single.
     + unfold Pay. rewrite pot_sub_deliver. cbn. lia.
     + unfold Pay. pose proof (pot_sub_close h s sid). cbn. lia.
@@ -861,8 +862,8 @@ Qed.
 
 Lemma handle_back_sub s fr : Sub s (rres_st (handle_back s fr)).
 Proof.
-  destruct fr as [x|ms|]; cbn [handle_back]; [| |apply Sub_refl].
-  - destruct x as [r|me sid p|me sid p|me p|]; cbn [handle_elem_single rres_st]; try apply Sub_refl.
+  destruct fr as [x|ms|]; rewrite ?handle_back_now; cbn [handle_back_ref]; [| |apply Sub_refl].
+  - destruct x as [r|me sid p|me sid p|me p|]; cbn [handle_elem_single_ref rres_st]; try apply Sub_refl.
     + apply single_response_sub.
     + apply sub_deliver_sub.
     + apply sub_close_sub.
